@@ -567,6 +567,265 @@ fn c17<K: Kit>(tier: &str, idx: usize, st: &Step<K>, rep: &mut Report) {
 }
 
 // ----------------------------------------------------------------------------------------------
+// C17, last clause: for the same samples (script) / the same seed, RRT* ends where RRT ends and its
+// path is no longer.
+
+fn path_len<K: Kit>(rig: &Rig<K>, p: &[K::S]) -> f64 {
+    p.windows(2).map(|w| rig.d(&w[0], &w[1])).sum()
+}
+
+fn node_states<K: Kit>(s: &Snap<K>) -> Vec<Vec<u64>> {
+    match s {
+        Snap::Tree(t) => t.iter().map(|(x, _, _)| K::bits(x)).collect(),
+        _ => vec![],
+    }
+}
+
+/// Compares the two planners' call results pairwise (same calls, same samples).
+fn versus_judge<K: Kit>(mode: &str, sc: &Scenario, detail: &dyn Fn() -> Value, rrt: &(Rig<K>, Vec<Result<Vec<K::S>, oxmpl::base::error::PlanningError>>), star: &(Rig<K>, Vec<Result<Vec<K::S>, oxmpl::base::error::PlanningError>>), rep: &mut Report) {
+    rep.count("versus_runs", 1);
+    rep.count("traces_validated", 1);
+    if node_states::<K>(&rrt.0.snapshot()) == node_states::<K>(&star.0.snapshot()) {
+        rep.count("versus_identical_node_sequences", 1);
+    }
+    for (i, ra) in rrt.1.iter().enumerate() {
+        let Ok(pa) = ra else { continue };
+        rep.count("versus_rrt_paths", 1);
+        let fail = |key: &str, what: String, rep: &mut Report| {
+            rep.violate(format!("C17|RRTStar|versus-rrt:{mode}|{key}"), what, || json!({"kind": "versus", "prop": "C17", "mode": mode, "scenario": sc.json(), "call": i, "detail": detail()}));
+        };
+        match star.1.get(i) {
+            Some(Ok(pb)) => {
+                let (la, lb) = (path_len(&rrt.0, pa), path_len(&star.0, pb));
+                if !K::same(pa.last().unwrap(), pb.last().unwrap()) {
+                    fail("different-end-state", format!("call {i}: RRT ends at {:?}, RRT* at {:?} for the same samples", K::to_v(pa.last().unwrap()).json(), K::to_v(pb.last().unwrap()).json()), rep);
+                } else if !(lb <= la * (1.0 + 1e-9) + 1e-12) {
+                    fail("longer-than-rrt", format!("call {i}: RRT* path length {lb} exceeds RRT's {la} for the same samples"), rep);
+                } else {
+                    rep.count("versus_paths_compared", 1);
+                    if lb < la * (1.0 - 1e-9) {
+                        rep.count("versus_star_strictly_shorter", 1);
+                    }
+                }
+            }
+            other => {
+                let got = match other {
+                    Some(Err(e)) => format!("{e:?}"),
+                    _ => "no call".to_string(),
+                };
+                fail("no-path-where-rrt-has-one", format!("call {i}: RRT returned a path, RRT* returned {got} for the same samples"), rep);
+            }
+        }
+    }
+}
+
+/// (a) every sample script over the alphabet to the depth bound, both planners fed identically
+fn versus_scripts<K: Kit>(tier: &'static str, scs: &[Scenario]) -> Report {
+    let shards: Vec<crate::explore::Shard> = scs.iter().flat_map(|sc| crate::explore::shards(&[sc.clone()], &(0..sc.alphabet.len() as u8).collect::<Vec<_>>(), depth_for(sc.kit, tier))).collect();
+    shards
+        .par_iter()
+        .map(|sh| {
+            let mut rep = Report::new();
+            let mut sc_rrt = sh.sc.clone();
+            sc_rrt.params.pk = Pk::Rrt;
+            crate::explore::for_each_seq(&sh.letters, sh.depth, &sh.prefix, |seq| {
+                let a = crate::explore::run_history::<K>(&sc_rrt, seq, false);
+                let b = crate::explore::run_history::<K>(&sh.sc, seq, false);
+                rep.count("versus_scripts", 1);
+                match (a, b) {
+                    (Ok((ra, ea)), Ok((rb, eb))) => {
+                        let ca: Vec<_> = ea.calls.into_iter().map(|(r, _)| r).collect();
+                        let cb: Vec<_> = eb.calls.into_iter().map(|(r, _)| r).collect();
+                        versus_judge::<K>("script", &sh.sc, &|| json!({"samples": seq}), &(ra, ca), &(rb, cb), &mut rep);
+                    }
+                    (Err(Caught::Harness(m)), _) | (_, Err(Caught::Harness(m))) => rep.engine_error(format!("harness panic in versus {}: {m}", sh.sc.tag)),
+                    _ => rep.count("versus_runs_that_unwound", 1), // unwinding is C08's subject
+                }
+            });
+            rep
+        })
+        .reduce(Report::new, |mut a, b| {
+            a.merge(b);
+            a
+        })
+}
+
+/// (b) real samplers and the real seeded generator: seed lattice x budgets x bias, whole executions
+fn versus_seeded<K: Kit>(tier: &'static str, scs: &[Scenario]) -> Report {
+    let thorough = tier != "quick";
+    let seeds: u64 = if thorough { 1024 } else { 96 };
+    let budgets: &[usize] = if thorough { &[4, 16, 64, 200] } else { &[6, 40] };
+    let jobs: Vec<(Scenario, u64)> = scs.iter().flat_map(|sc| (0..seeds).map(move |s| (sc.clone(), s))).collect();
+    jobs.par_iter()
+        .map(|(sc0, seed)| {
+            let mut rep = Report::new();
+            for bias in [0.05, 0.4] {
+                for goal_rng in [false, true] {
+                    let run = |pk: Pk| {
+                        let mut sc = sc0.clone();
+                        sc.params.pk = pk;
+                        sc.params.bias = bias;
+                        sc.params.seed = Some(*seed);
+                        crate::explore::guarded(|| {
+                            let mut rig = Rig::<K>::new(&sc, true);
+                            rig.pass_through();
+                            rig.goal_mode(if goal_rng { crate::seams::GoalMode::Rng } else { crate::seams::GoalMode::Cycle });
+                            let mut calls = Vec::new();
+                            for &n in budgets {
+                                oxmpl::verif::clock_reset(1_000_000);
+                                calls.push(rig.drv.solve(crate::drv::iters(n)));
+                            }
+                            (rig, calls)
+                        })
+                    };
+                    rep.count("versus_seeded_runs", 1);
+                    match (run(Pk::Rrt), run(Pk::Star)) {
+                        (Ok(a), Ok(b)) => versus_judge::<K>("seeded", sc0, &|| json!({"seed": seed, "goal_bias": bias, "goal_sampler_uses_rng": goal_rng, "budgets": budgets}), &a, &b, &mut rep),
+                        (Err(Caught::Harness(m)), _) | (_, Err(Caught::Harness(m))) => rep.engine_error(format!("harness panic in seeded versus {}: {m}", sc0.tag)),
+                        _ => rep.count("versus_runs_that_unwound", 1),
+                    }
+                }
+            }
+            rep
+        })
+        .reduce(Report::new, |mut a, b| {
+            a.merge(b);
+            a
+        })
+}
+
+fn versus_kit<K: Kit>(tier: &'static str, scs: &[Scenario]) -> Report {
+    let mut rep = versus_scripts::<K>(tier, scs);
+    rep.merge(versus_seeded::<K>(tier, scs));
+    rep
+}
+
+/// Scenario roots of the RRT-versus-RRT* comparison: worlds x steps x radii per space.
+fn versus_scenarios(tier: &str) -> Vec<Scenario> {
+    let thorough = tier != "quick";
+    let mut out = Vec::new();
+    for kit in KITS {
+        let b = base_of(kit);
+        let worlds: Vec<WorldSpec> = if thorough { b.subset_worlds() } else { vec![b.world_free(), b.world_named("subset0001", vec![b.obstacles[0].clone()]), b.world_named("subset0110", vec![b.obstacles[1].clone(), b.obstacles[2].clone()])] };
+        for w in &worlds {
+            for &(sm, rm) in if thorough { &[(0.6, 2.5), (1.0, 1.5), (1.0, 2.5), (1.6, 1.0), (0.6, 1e6)][..] } else { &[(1.0, 2.5), (0.6, 1.5)][..] } {
+                out.push(b.scenario(w.clone(), b.params(Pk::Star, sm, rm, 0.0), &format!("C17/versus/{kit}/{}/x{sm}/r{rm}", w.name)));
+            }
+        }
+    }
+    out
+}
+
+// ----------------------------------------------------------------------------------------------
+// C16, goal bias strictly between 0 and 1: the coin comes from the planner's private StdRng and
+// cannot be scripted, so this clause is an enumerated-seed audit (DESIGN 9.2): for every seed of a
+// lattice the real planner runs N iterations in a world whose goal is sealed off (so no call ends
+// early) with the real samplers; the seams record, per iteration, whether the goal sampler or the
+// uniform sampler was asked. Judged: one sample per iteration; overall goal frequency within 6
+// sigma of p; the per-run goal counts have binomial variance (a counter-based "every k-th
+// iteration" schedule has none); consecutive draws are uncorrelated.
+
+fn bias_audit_kit<K: Kit>(tier: &'static str) -> Report {
+    let thorough = tier != "quick";
+    let b = base_of(K::NAME);
+    let seeds: u64 = if thorough { 4096 } else { 1024 };
+    let n_iter: usize = 64;
+    let world = b.world_named("goal-sealed", vec![b.seal_goal.clone()]);
+    let mut rep = Report::new();
+    for &pk in &Pk::TREES {
+        for p in [0.05, 0.5, 0.9] {
+            for goal_rng in [false, true] {
+                let per_seed: Vec<Result<(u64, u64, u64, u64, bool), String>> = (0..seeds)
+                    .into_par_iter()
+                    .map(|seed| {
+                        let mut pr = b.params(pk, 0.6, 1.5, p);
+                        pr.seed = Some(seed);
+                        let sc = b.scenario(world.clone(), pr, &format!("C16/bias-audit/{}/{}/p{p}", b.kit, pk.name()));
+                        let r = crate::explore::guarded(|| {
+                            let mut rig = Rig::<K>::new(&sc, true);
+                            rig.pass_through();
+                            rig.logging(true);
+                            rig.goal_mode(if goal_rng { crate::seams::GoalMode::Rng } else { crate::seams::GoalMode::Cycle });
+                            let g0 = rig.goal.calls.get();
+                            let u0 = rig.space.calls.get();
+                            let g_log0 = rig.goal.sample_log.borrow().len();
+                            oxmpl::verif::clock_reset(1_000_000);
+                            let res = rig.drv.solve(crate::drv::iters(n_iter));
+                            let g = (rig.goal.calls.get() - g0) as u64;
+                            let u = (rig.space.calls.get() - u0) as u64;
+                            // order of draws: merge the two logs by their global sequence numbers
+                            let mut order: Vec<(u64, bool)> = rig.goal.sample_log.borrow()[g_log0..].iter().map(|(q, _)| (*q, true)).collect();
+                            order.extend(rig.space.log.borrow().iter().map(|(q, _)| (*q, false)));
+                            order.sort();
+                            let gg = order.windows(2).filter(|w| w[0].1 && w[1].1).count() as u64;
+                            let g_first = order.iter().take(order.len().saturating_sub(1)).filter(|x| x.1).count() as u64;
+                            (g, u, gg, g_first, res.is_ok())
+                        });
+                        r.map_err(|c| format!("{c:?}"))
+                    })
+                    .collect();
+                let tag = format!("{}|p={p}|goal-sampler-uses-rng={goal_rng}", pk.name());
+                let mut tot_g = 0u64;
+                let mut tot = 0u64;
+                let mut counts: Vec<f64> = Vec::new();
+                let (mut gg, mut gfirst) = (0u64, 0u64);
+                let mut bad: Option<String> = None;
+                for (seed, r) in per_seed.iter().enumerate() {
+                    match r {
+                        Ok((g, u, pairs, gf, ok)) => {
+                            if *ok {
+                                bad = Some(format!("seed {seed}: solve returned a path although the goal is sealed off"));
+                            }
+                            if g + u != n_iter as u64 {
+                                rep.violate(format!("C16|{}|bias-audit|samples-per-iteration", pk.name()), format!("{tag}: seed {seed}: {} sampler calls in {n_iter} iterations (goal {g}, uniform {u})", g + u), || json!({"kind": "bias-audit", "planner": pk.name(), "space": b.kit, "p": p, "seed": seed}));
+                            }
+                            tot_g += g;
+                            tot += g + u;
+                            counts.push(*g as f64);
+                            gg += pairs;
+                            gfirst += gf;
+                        }
+                        Err(e) => bad = Some(format!("seed {seed}: {e}")),
+                    }
+                }
+                if let Some(m) = bad {
+                    rep.engine_error(format!("bias audit {tag} on {}: {m}", b.kit));
+                    continue;
+                }
+                rep.count("bias_audit_runs", seeds);
+                rep.count("bias_audit_coin_flips", tot);
+                rep.count("traces_validated", seeds);
+                let f = tot_g as f64 / tot as f64;
+                let sigma = (p * (1.0 - p) / tot as f64).sqrt();
+                let detail = |extra: Value| json!({"kind": "bias-audit", "planner": pk.name(), "space": b.kit, "p": p, "goal_sampler_uses_rng": goal_rng, "seeds": seeds, "iterations": n_iter, "observed": extra});
+                if (f - p).abs() > 6.0 * sigma {
+                    rep.violate(format!("C16|{}|bias-audit|frequency", pk.name()), format!("{tag}: goal sampler asked in {tot_g} of {tot} iterations = {f:.5}, more than 6 sigma ({:.5}) from the configured bias", 6.0 * sigma), || detail(json!({"frequency": f})));
+                }
+                let mean = counts.iter().sum::<f64>() / counts.len() as f64;
+                let var = counts.iter().map(|c| (c - mean) * (c - mean)).sum::<f64>() / (counts.len() as f64 - 1.0);
+                let want_var = n_iter as f64 * p * (1.0 - p);
+                let ratio = var / want_var;
+                // relative std of a variance estimate over S runs ~ sqrt(2/S): 0.044 (S=1024), 0.022 (S=4096)
+                let tol = 7.0 * (2.0 / seeds as f64).sqrt();
+                if !(ratio > 1.0 - tol && ratio < 1.0 + tol) {
+                    rep.violate(format!("C16|{}|bias-audit|variance", pk.name()), format!("{tag}: per-run goal counts have variance {var:.3}, binomial variance is {want_var:.3} (ratio {ratio:.3}): the draws are not independent coin flips with probability p"), || detail(json!({"variance_ratio": ratio})));
+                }
+                // P(goal at i+1 | goal at i) ~ p
+                if gfirst > 0 {
+                    let c = gg as f64 / gfirst as f64;
+                    let s2 = (p * (1.0 - p) / gfirst as f64).sqrt();
+                    if (c - p).abs() > 6.0 * s2 {
+                        rep.violate(format!("C16|{}|bias-audit|serial-dependence", pk.name()), format!("{tag}: P(goal | previous draw was goal) = {c:.5}, more than 6 sigma ({:.5}) from p", 6.0 * s2), || detail(json!({"conditional": c})));
+                    }
+                }
+                rep.max("max_bias_audit_deviation_in_sigma_x100", ((f - p).abs() / sigma * 100.0) as u64);
+            }
+        }
+    }
+    rep
+}
+
+// ----------------------------------------------------------------------------------------------
 // driver
 
 fn on_caught_for<'a>(prop: &'static str, tier: &'static str, idx: usize, sc: &'a Scenario) -> impl Fn(&[u8], u8, Caught, &mut Report) + Sync + 'a {
@@ -634,10 +893,26 @@ pub fn run(prop: &'static str, tier: &'static str) -> i32 {
         let r = with_kit!(kit, run_kit(prop, tier, &scs));
         rep.merge(r);
     }
+    if prop == "C17" {
+        let vs = versus_scenarios(tier);
+        rep.count("versus_scenarios", vs.len() as u64);
+        for kit in KITS {
+            let scs: Vec<Scenario> = vs.iter().filter(|s| s.kit == kit).cloned().collect();
+            let r = with_kit!(kit, versus_kit(tier, &scs));
+            rep.merge(r);
+        }
+    }
+    if prop == "C16" {
+        let kits: &[&str] = if tier == "quick" { &["RealVector", "SE2"] } else { &KITS };
+        for kit in kits {
+            let r = with_kit!(*kit, bias_audit_kit(tier));
+            rep.merge(r);
+        }
+    }
     let must: Vec<&str> = match prop {
         "C15" => vec!["states_after_success", "states_after_timeout", "edges_checked", "zero_length_edges"],
-        "C16" => vec!["nodes_added", "nothing_added", "bias0_iterations", "bias1_iterations", "connect_direct_goal_hit", "connect_joined_growing_start", "connect_joined_growing_goal", "connect_first_extension_failed"],
-        "C17" => vec!["rewires", "non_nearest_parent_chosen", "choose_parent_with_alternatives"],
+        "C16" => vec!["nodes_added", "nothing_added", "bias0_iterations", "bias1_iterations", "connect_direct_goal_hit", "connect_joined_growing_start", "connect_joined_growing_goal", "connect_first_extension_failed", "bias_audit_coin_flips"],
+        "C17" => vec!["rewires", "non_nearest_parent_chosen", "choose_parent_with_alternatives", "versus_paths_compared", "versus_star_strictly_shorter", "versus_seeded_runs"],
         _ => vec![],
     };
     if prop == "C15" {
